@@ -426,7 +426,7 @@ class FieldValueComponentDateTime(FieldValueComponentKeyValueBase):
         if value.tzinfo is not None:
             value = value.astimezone(dateutil.tz.UTC)
 
-        return value.strftime('%a, %d %b %Y %H:%M:%S GMT')
+        return value.strftime('%a, %d %b {:04d} %H:%M:%S GMT'.format(value.year))
 
 
 @attr.s
